@@ -42,7 +42,7 @@ namespace GcArena.C14s
 open GcArena GcArena.DynCompose
 open GcArena.DynRoots (Handle RootSet State)
 
-theorem closure_accessible {a : Arena} {p j : Nat} (hp : Accessible a p)
+private theorem closure_accessible {a : Arena} {p j : Nat} (hp : Accessible a p)
     (hj : AccessibleC a.ctx [] [Ptr.strong p] j) : Accessible a j := by
   induction hj with
   | root t h => cases h
